@@ -1,6 +1,10 @@
 #!/bin/bash
-# Verifies every seeded change in work/seeded_in that has no seeded/<id>/verify.json yet, N at a time.
+# Verifies every seeded change in work/seeded_in that has no seeded/<id>/verify.json yet and is not being
+# verified right now, N at a time.
 cd /verif
 N=${1:-3}
-ls work/seeded_in | grep -v '\.log$' | while read s; do [ -f seeded/$s/verify.json ] || echo $s; done | \
-  xargs -P $N -I{} sh -c 'python3 tools/verify_seeded.py work/seeded_in/{} {} > work/seeded_in/{}.log 2>&1'
+ls work/seeded_in | grep -v '\.log$' | while read s; do
+  [ -f seeded/$s/verify.json ] && continue
+  ps aux | grep -q "[v]erify_seeded.py work/seeded_in/$s " && continue
+  echo $s
+done | xargs -P $N -I{} sh -c 'python3 tools/verify_seeded.py work/seeded_in/{} {} > work/seeded_in/{}.log 2>&1'
